@@ -394,7 +394,7 @@ package client
 //@   requires 0 <= conn.badness && conn.badness <= 4611686018427387904
 //@   requires 0 <= conn.lastsent && conn.lastsent <= $now && $now <= 4611686018427387904
 //@   modifies conn.badness, conn.lastsent, $now
-//@   ensures old($now) <= a && a <= b && b == $now
+//@   ensures old($now) <= a && a <= b && b == $now && $now <= 4611686018427387904
 //@   ensures conn.lastsent == b
 //@   ensures conn.badness == max(0, old(conn.badness) + c - (a - old(conn.lastsent)))
 //@   ensures conn.badness >= 0 && conn.badness <= old(conn.badness) + c
@@ -411,10 +411,13 @@ package client
 //@ pred isFlush(e event, w *bufio.Writer) := e == ev("ext", extid("bufio.Flush"), "", 0, w)
 //@ specfn masked(line string) string := (len(line) >= 4 && line[:4] == "PASS") ? "PASS **************" : line
 
+//@ specfn charge(chars int) int := 2000000000 + chars * 1000000000 / 120
+
 //@ func (*Conn).write
 //@   property C08
 //@   safety C08
 //@   bind t int := call client.(*Conn).rateLimit 1
+//@   bind a int := ghost client.(*Conn).rateLimit 1 a
 //@   requires ioOK(conn)
 //@   requires [C10] !conn.cfg.Flood ==> len(line) <= 4294967296 && 0 <= conn.badness && conn.badness <= 4611686018427387904
 //@   requires [C10] !conn.cfg.Flood ==> 0 <= conn.lastsent && conn.lastsent <= $now && $now <= 4611686018427387904
@@ -424,11 +427,15 @@ package client
 //@   ensures [C08] result != nil ==> ($wirelen == old($wirelen) + 1 || $wirelen == old($wirelen) + 2)
 //@      && isWrite($wire[old($wirelen)], conn.io.Writer, line + "\r\n")
 //@      && ($wirelen == old($wirelen) + 2 ==> isFlush($wire[old($wirelen)+1], conn.io.Writer))
-//@   ensures [C10] conn.cfg.Flood ==> conn.badness == old(conn.badness) && conn.lastsent == old(conn.lastsent) && $trlen == old($trlen)
+//@   ensures [C10] conn.cfg.Flood ==> conn.badness == old(conn.badness) && conn.lastsent == old(conn.lastsent) && $trlen == old($trlen) && $now == old($now)
 //@   ensures [C10] !conn.cfg.Flood && t == 0 ==> $trlen == old($trlen)
 //@   ensures [C10] !conn.cfg.Flood && t != 0 ==> $trlen == old($trlen) + 2
 //@      && $tr[old($trlen)] == ev("ext", extid("time.After"), "", t) && $tr[old($trlen)+1].kind == kindof("recv")
 //@      && $tr[old($trlen)+1].seq < $wire[old($wirelen)].seq
+//@   ensures [C10] !conn.cfg.Flood ==> t == (conn.badness > 10000000000 ? charge(len(line)) : 0)
+//@      && a >= old($now) && conn.badness == max(0, old(conn.badness) + charge(len(line)) - (a - old(conn.lastsent)))
+//@      && conn.lastsent >= old($now) && conn.lastsent <= 4611686018427387904 && $now >= conn.lastsent + t && $now <= 4611686018427387904
+//@   ensures [C10] $now >= old($now)
 //@   ensures [C20] forall k int :: old($loglen) <= k && k < $loglen && $log[k].kind == kindof("logarg") ==> $log[k].str == "" || $log[k].str == masked(line)
 //@ end
 
@@ -610,4 +617,145 @@ package client
 //@   ensures $tr[p1] == ev("spawn", fnid("client.(*hSet).dispatch"), "", conn, bg)
 //@   ensures $tr[p1 + 1] == ev("rlock", fg.RWMutex) && p1 + 4 <= $trlen
 //@   ensures $tr[$trlen - 1].kind == kindof("wgwait")
+//@ end
+
+// ---------------------------------------------------------------------------
+// connection.go: lifecycle
+
+//@ guarded_by Conn.connected self.mu
+
+// Function values stored in the connection: the context's CancelFunc.
+//@ func field:Conn.die
+//@   attr assumed
+//@   modifies $tr
+//@   ensures $trlen == old($trlen) + 1 && $tr[old($trlen)] == ev("ext", extid("cancel"))
+//@ end
+
+//@ func (*Conn).Connected
+//@   property C06
+//@   safety C06
+//@   attr lockcheck=C06
+//@   requires conn != nil && held(conn.mu) == 0
+//@   modifies $held, $tr
+//@   ensures result == conn.connected && $held === old($held)
+//@ end
+
+//@ func (*Conn).drainIn
+//@   property C06
+//@   safety C06
+//@   requires conn != nil
+//@   modifies $tr
+//@   maintains forall k int :: old($trlen) <= k && k < $trlen ==> $tr[k].kind == kindof("recv") && $tr[k].obj == conn.in
+//@   loop 0:
+//@     invariant true
+//@ end
+
+//@ func (*Conn).drainOut
+//@   property C06, C09
+//@   safety C06
+//@   requires conn != nil
+//@   modifies $tr
+//@   maintains forall k int :: old($trlen) <= k && k < $trlen ==> $tr[k].kind == kindof("recv") && $tr[k].obj == conn.out
+//@   loop 0:
+//@     invariant true
+//@ end
+
+// Close. Not connected: nothing happens. Connected: the flag is cleared in
+// the critical section that tested it (so of any number of racing callers one
+// proceeds, A1), the socket is closed, the context cancelled, both queues
+// drained, the goroutines awaited, the mutex released, and only then exactly
+// one DISCONNECTED is dispatched - with Connected() already false.
+//@ func (*Conn).Close
+//@   property C06
+//@   safety C06
+//@   attr lockcheck=C06
+//@   bind cAtUnlock bool := after sync.(*RWMutex).Unlock 2 conn.connected
+//@   bind pu int := after sync.(*RWMutex).Unlock 2 $trlen
+//@   bind pw int := after sync.(*WaitGroup).Wait 1 $trlen
+//@   bind ih *hSet := after sync.(*RWMutex).Unlock 2 conn.intHandlers
+//@   bind dcmd string := before client.(*Conn).dispatch 1 arg1.Cmd
+//@   bind pd int := after client.(*Conn).dispatch 1 $trlen
+//@   requires connInv(conn) && held(conn.mu) == 0
+//@   requires conn.connected ==> conn.sock != nil
+//@   modifies $tr, $wg, $wire, $log, $now, $held, heap
+//@   ensures $held === old($held)
+//@   ensures $tr[old($trlen)] == ev("lock", conn.mu)
+//@   ensures !old(conn.connected) ==> result == nil && $trlen == old($trlen) + 2 && $tr[old($trlen)+1] == ev("unlock", conn.mu)
+//@        && $wirelen == old($wirelen) && $loglen == old($loglen)
+//@   ensures old(conn.connected) ==> !cAtUnlock
+//@        && $wirelen == old($wirelen) + 1 && $wire[old($wirelen)] == ev("ext", extid("net.Conn.Close"), "", 0, old(conn.sock))
+//@        && pw + 1 == pu && $tr[pw - 1] == ev("wgwait", conn.wg) && $tr[pu - 1] == ev("unlock", conn.mu)
+//@        && $tr[pu] == ev("rlock", ih.RWMutex) && dcmd == "DISCONNECTED" && pd == $trlen
+//@ end
+
+// initialise: fresh queues, no socket, tracker wiped.
+//@ func (*Conn).initialise
+//@   property C06
+//@   safety C06
+//@   requires conn != nil
+//@   modifies conn.io, conn.sock, conn.in, conn.out, conn.die, $trk
+//@   ensures conn.io == nil && conn.sock == nil && conn.die == nil
+//@   ensures conn.in != nil && fresh(conn.in) && conn.out != nil && fresh(conn.out) && conn.in != conn.out
+//@ end
+
+// postConnect(start=true): buffered reader/writer over the socket, a
+// cancellable context, and exactly one send, one recv, one runLoop goroutine
+// (plus ping iff PingFreq > 0), each counted on conn.wg before it is spawned.
+//@ func (*Conn).postConnect
+//@   property C06, C18, C09, C03
+//@   safety C06
+//@   requires connOK(conn)
+//@   modifies conn.io, conn.die, $tr, $wg, ReadWriter.Reader, ReadWriter.Writer
+//@   ensures conn.io != nil && conn.io.Reader != nil && conn.io.Writer != nil
+//@   ensures !start ==> $trlen == old($trlen)
+//@   ensures start ==> conn.die != nil
+//@        && $tr[old($trlen)] == ev("wgadd", conn.wg, "", 3)
+//@        && $tr[old($trlen)+1].kind == kindof("spawn") && $tr[old($trlen)+1].obj == fnid("client.(*Conn).send") && $tr[old($trlen)+1].obj2 == conn
+//@        && $tr[old($trlen)+2] == ev("spawn", fnid("client.(*Conn).recv"), "", 0, conn)
+//@        && $tr[old($trlen)+3].kind == kindof("spawn") && $tr[old($trlen)+3].obj == fnid("client.(*Conn).runLoop") && $tr[old($trlen)+3].obj2 == conn
+//@   ensures start && conn.cfg.PingFreq <= 0 ==> $trlen == old($trlen) + 4
+//@   ensures start && conn.cfg.PingFreq > 0 ==> $trlen == old($trlen) + 6
+//@        && $tr[old($trlen)+4] == ev("wgadd", conn.wg, "", 1)
+//@        && $tr[old($trlen)+5].kind == kindof("spawn") && $tr[old($trlen)+5].obj == fnid("client.(*Conn).ping") && $tr[old($trlen)+5].obj2 == conn
+//@ end
+
+// ---------------------------------------------------------------------------
+// connection.go: the three goroutines
+
+//@ pred sockOK(conn *Conn) := connInv(conn) && ioOK(conn) && conn.io.Reader != nil && (conn.connected ==> conn.sock != nil)
+
+// send: every line dequeued from conn.out goes to exactly one write, in
+// dequeue order (C09); flood accounting stays bounded (C10); the only exits
+// are a write error (wg.Done, then Close) and cancellation (wg.Done) (C06).
+//@ func (*Conn).send
+//@   property C09, C06, C10
+//@   safety C09
+//@   bind pdone int := after sync.(*WaitGroup).Done 1 $trlen
+//@   bind pdone2 int := after sync.(*WaitGroup).Done 2 $trlen
+//@   requires sockOK(conn) && held(conn.mu) == 0 && conn.out != nil && ctx != nil
+//@   requires [C10] 0 <= conn.badness && conn.badness <= 10000000000 && 0 <= conn.lastsent && conn.lastsent <= $now && $now <= 4611686018427387904
+//@   modifies $tr, $wg, $wire, $log, $now, $deadline, $held, heap
+//@   ensures [C06] ($tr[pdone - 1] == ev("wgdone", old(conn.wg)) && $tr[pdone] == ev("lock", old(conn.mu)))
+//@              || ($tr[pdone2 - 1] == ev("wgdone", old(conn.wg)) && pdone2 == $trlen)
+//@   loop 0:
+//@     ghost n int := 0
+//@     ghost got smap := emptysmap()
+//@     ghost pos imap := emptyimap()
+//@     ghost hc int := 0
+//@     invariant sockOK(conn) && held(conn.mu) == 0 && conn.io === preloop(conn.io) && conn.io.Writer === preloop(conn.io.Writer)
+//@        && conn.out === preloop(conn.out) && conn.wg === preloop(conn.wg) && conn.mu === preloop(conn.mu)
+//@     invariant n >= 0 && $wirelen == preloop($wirelen) + 2 * n
+//@     invariant forall k int :: 0 <= k && k < n ==>
+//@           isWrite($wire[preloop($wirelen) + 2*k], conn.io.Writer, got[k] + "\r\n")
+//@        && isFlush($wire[preloop($wirelen) + 2*k + 1], conn.io.Writer)
+//@        && preloop($trlen) <= pos[k] && pos[k] < $trlen
+//@        && $tr[pos[k]] == ev("recv", conn.out, got[k])
+//@        && $tr[pos[k]].seq < $wire[preloop($wirelen) + 2*k].seq
+//@     invariant forall k int :: 0 < k && k < n ==> pos[k-1] < pos[k]
+//@     invariant [C10] hc >= 0 && hc <= 36000000000000000 && 0 <= conn.badness && conn.badness <= 10000000000 + hc
+//@        && 0 <= conn.lastsent && conn.lastsent + hc <= $now && $now <= 4611686018427387904
+//@     step n := n + 1
+//@     step got := upd(got, n, line)
+//@     step pos := upd(pos, n, iterstart($trlen))
+//@     step hc := conn.cfg.Flood ? hc : (conn.badness > 10000000000 ? charge(len(line)) : 0)
 //@ end
